@@ -3,7 +3,9 @@
 Model: coq/Model/VersionCompare.v (code) + coq/Model/VersionKey.v (recogniser, key, key order)
 Theorems: coq/Props/C10.v
 Implementation: hooks.version_cmp(a, b), hooks.version_cmp(a, b, False), Eups.version_match,
-Eups._selectPreferredProduct(products, ["latest"]) and a plain sort with the comparator.
+Eups._selectPreferredProduct(products, ["latest"]) and a plain sort with the comparator; the tag latest over
+real stacks on EUPS_PATH (Eups._findLatestProduct and its public entrances, see harness/c10stacks.py; model
+coq/Model/VersionStacks.v).
 
 Streams
   small   every pair of a small conventional grammar (660 names), both modes: correspondence, the
@@ -13,6 +15,9 @@ Streams
   random  pairs of arbitrary strings over [A-Za-z0-9._+-] biased to the branches of _splitVersion
   match   relational expressions over conventional names (and a malformed share)
   latest  lists of conventional names
+  stacks  real stacks on EUPS_PATH (1-4 stacks, versions spread over them, the maximum in any of them, with and
+          without a minimum version), the tag latest asked through every entrance, with the product cache and
+          from the database files (harness/c10stacks.py, model coq/Model/VersionStacks.v)
 """
 import functools
 import json
@@ -20,6 +25,7 @@ import os
 import re
 
 import common
+import c10stacks
 from common import enc
 
 # ------------------------------------------------------------------ the property's own statement
@@ -469,6 +475,8 @@ def run_cases(ctx, cases, stream):
             ms.append(c)
     run_matches(ctx, ms)
     run_latests(ctx, [c["names"] for c in cases if c["kind"] == "latest"])
+    c10stacks.check_cases(ctx, [dict(c, flavor=c.get("flavor", "Linux64")) for c in cases if c["kind"] == "stacks"],
+                          pykey, stream)
 
 
 def corpus_cases():
@@ -488,11 +496,23 @@ def setup(ctx):
                 "28 260-name grammar of the design; (random) pairs of strings of length <= 8 over [abmpvrcAZ0-39._+-] "
                 "biased towards prefixes, respellings and the m<d>/p<d>/hyphen/plus branches; (match) relational "
                 "expressions of 1-3 alternatives with spacing variants and a malformed share; (latest) lists of 0-8 "
-                "conventional names.  A pair is non-trivial when its two names differ; distinct = distinct input text; "
+                "conventional names; (stacks) real stacks on EUPS_PATH: 1-4 stacks declaring 0-7 conventional versions "
+                "of one product spread over them (a version may be in two stacks, a stack may declare none), plus directed "
+                "families placing the maximum in every position of every order of 2-3 stacks with the decisive "
+                "difference a number, a longer name, a pre- or a post-release part; half with a minimum version; the "
+                "tag latest asked through findProduct(Tag(latest)), findTaggedProduct, a VRO of -t latest, "
+                "_findLatestProduct with/without noCache and minimum, findProducts(tags=[latest]) and the text of eups "
+                "list -t latest -d, each with the cache just built, the cache read back, and readCache=False; the "
+                "histogram key of a stacks case is <number of stacks>/<stacks declaring the product>/<where the "
+                "maximum lies>[/min].  A pair is non-trivial when its two names differ; distinct = distinct input text; "
                 "the histogram key of a pair is the arm of stdCompare the model took")
     ctx.trusted_base = common.COMMON_TRUSTED + [
         "modelled, not verified: python re on the fixed patterns of VersionCompare.py and version_match, int() on "
         "ASCII digit strings (below the 4300-digit limit), str comparison by code point, sorted() stability",
+        "modelled, not verified (stacks stream): the order in which a stack lists its versions (product cache: "
+        "ProductStack.getVersions, database files: Database.findProducts) is read from the real stack and given to "
+        "the model - it only matters between versions that compare equal; checked to be a rearrangement of the "
+        "versions declared",
         "not modelled: interpolation of a component prefix holding a regular-expression metacharacter (a plus sign "
         "left in the primary part) into a pattern - the model answers Undefined there and such pairs are only run "
         "through the oracle"]
@@ -580,6 +600,11 @@ def run(ctx):
         lists.append([rng.choice(near) if rng.random() < 0.4 else rng.choice(pool) for _ in range(k)])
     run_latests(ctx, lists)
     ctx.sample({"kind": "triple", "names": list(triples[0])})
+
+    # the tag latest over real stacks
+    scases = c10stacks.generate(ctx, rng, small + rng.sample(big, 660))
+    ctx.sample(scases[0])
+    c10stacks.check_cases(ctx, scases, pykey)
 
 
 def replay(ctx, path):
